@@ -21,6 +21,7 @@ pub fn tmp_root() -> String {
 /// then a refresh of both wallets
 pub fn setup_world(dir: &str, setup: &Value) -> World {
 	let mut w = World::new(dir, U);
+	w.via_api = setup["api"].as_bool().unwrap_or(false);
 	w.create_wallet("w1", setup["masked"].as_bool().unwrap_or(false), None);
 	w.create_wallet("w2", false, None);
 	let nfund = setup["nfund"].as_u64().unwrap_or(2);
